@@ -376,3 +376,295 @@ pub proof fn thm_step(a: Run, b: Run, lm: bool, i: int, i2: int, c: real)
     lemma_step_b(a, b, lm, i, i2, c);
     lemma_step_c(a, b, lm, i, i2, c);
 }
+
+// ------------------------------------------------------------------------------------------------ layouts of the time axis and annual sums
+/// `idx[i2]` is the step of the first evaluation that step i2 of the second corresponds to; `cs` the factor between their energies
+pub open spec fn lay_rel(v: Seq<f32>, v2: Seq<f32>, idx: Seq<int>, cs: real) -> bool {
+    v2.len() == idx.len() && forall|i2: int| 0 <= i2 < idx.len() ==> 0 <= #[trigger] idx[i2] < v.len() && rv(v2[i2]) == cs * rv(v[idx[i2]])
+}
+/// a layout under which every annual sum of the second evaluation is `ct` times that of the first
+pub open spec fn lay_sums(idx: Seq<int>, n: int, cs: real, ct: real) -> bool {
+    forall|v: Seq<f32>, v2: Seq<f32>| v.len() == n && #[trigger] lay_rel(v, v2, idx, cs) ==> sumf(v2) == ct * sumf(v)
+}
+pub open spec fn idx_ident(n: int) -> Seq<int> { Seq::new(n as nat, |i: int| i) }
+/// (S) same time axis, energies x c: annual sums x c
+pub proof fn lemma_sumf_scale(v: Seq<f32>, v2: Seq<f32>, c: real)
+    requires v.len() == v2.len(), forall|i: int| 0 <= i < v.len() ==> rv(#[trigger] v2[i]) == c * rv(v[i]),
+    ensures sumf(v2) == c * sumf(v),
+    decreases v.len(),
+{
+    if v.len() == 0 { lemma_mul0(c); }
+    else {
+        assert forall|i: int| 0 <= i < v.drop_last().len() implies rv(#[trigger] v2.drop_last()[i]) == c * rv(v.drop_last()[i]) by {
+            assert(v2.drop_last()[i] == v2[i] && v.drop_last()[i] == v[i]);
+        }
+        lemma_sumf_scale(v.drop_last(), v2.drop_last(), c);
+        assert(rv(v2[v.len() - 1]) == c * rv(v[v.len() - 1]));
+        lemma_dist2(c, sumf(v.drop_last()), rv(v.last()));
+    }
+}
+pub proof fn lemma_lay_same(n: int, c: real)
+    requires n >= 0,
+    ensures lay_sums(idx_ident(n), n, c, c),
+{
+    let idx = idx_ident(n);
+    assert forall|v: Seq<f32>, v2: Seq<f32>| v.len() == n && #[trigger] lay_rel(v, v2, idx, c) implies sumf(v2) == c * sumf(v) by {
+        assert forall|i: int| 0 <= i < v.len() implies rv(#[trigger] v2[i]) == c * rv(v[i]) by { assert(idx[i] == i); }
+        lemma_sumf_scale(v, v2, c);
+    }
+}
+
+/// sumf as a sum of reals
+pub open spec fn rvs(v: Seq<f32>) -> Seq<real> { Seq::new(v.len(), |i: int| rv(v[i])) }
+pub proof fn lemma_sumf_sumr(v: Seq<f32>)
+    ensures sumf(v) == sumr(rvs(v)),
+    decreases v.len(),
+{
+    if v.len() > 0 {
+        lemma_sumf_sumr(v.drop_last());
+        assert(rvs(v).drop_last() =~= rvs(v.drop_last()));
+        assert(rvs(v).last() == rv(v.last()));
+    }
+}
+/// a permutation of 0..n as a sequence of indices
+pub open spec fn is_perm(idx: Seq<int>, n: int) -> bool {
+    idx.len() == n && idx.no_duplicates() && forall|i: int| 0 <= i < n ==> 0 <= #[trigger] idx[i] < n
+}
+/// sum of a[idx[i]] over a permutation idx equals the sum of a
+pub proof fn lemma_sumr_reindex(a: Seq<real>, idx: Seq<int>)
+    requires is_perm(idx, a.len() as int),
+    ensures sumr(Seq::new(a.len(), |i: int| a[idx[i]])) == sumr(a),
+    decreases a.len(),
+{
+    let n = a.len() as int;
+    let b = Seq::new(a.len(), |i: int| a[idx[i]]);
+    if n > 0 {
+        let p = idx[n - 1];
+        assert(0 <= p < n);
+        let a1 = a.remove(p);
+        let idx1 = Seq::new((n - 1) as nat, |i: int| if idx[i] < p { idx[i] } else { idx[i] - 1 });
+        assert forall|i: int| 0 <= i < n - 1 implies idx[i] != p by { assert(idx[i] != idx[n - 1]); }
+        assert forall|i: int| 0 <= i < n - 1 implies 0 <= #[trigger] idx1[i] < n - 1 by { assert(0 <= idx[i] < n); assert(idx[i] != p); }
+        assert forall|i: int, j: int| 0 <= i < n - 1 && 0 <= j < n - 1 && i != j implies idx1[i] != idx1[j] by {
+            assert(idx[i] != idx[j]); assert(idx[i] != p && idx[j] != p);
+        }
+        assert(is_perm(idx1, n - 1));
+        let b1 = Seq::new(a1.len(), |i: int| a1[idx1[i]]);
+        assert(b.drop_last() =~= b1) by {
+            assert forall|i: int| 0 <= i < n - 1 implies b.drop_last()[i] == b1[i] by {
+                assert(idx[i] != p);
+                if idx[i] < p { assert(a1[idx[i]] == a[idx[i]]); } else { assert(a1[idx[i] - 1] == a[idx[i]]); }
+            }
+        }
+        lemma_sumr_reindex(a1, idx1);
+        lemma_sumr_remove(a, p);
+        assert(b.last() == a[p]);
+    }
+}
+/// (P) the steps of every component reordered by the same permutation: annual sums unchanged
+pub proof fn lemma_lay_perm(idx: Seq<int>, n: int)
+    requires is_perm(idx, n),
+    ensures lay_sums(idx, n, 1real, 1real),
+{
+    assert forall|v: Seq<f32>, v2: Seq<f32>| v.len() == n && #[trigger] lay_rel(v, v2, idx, 1real) implies sumf(v2) == 1real * sumf(v) by {
+        lemma_sumf_sumr(v); lemma_sumf_sumr(v2);
+        let a = rvs(v);
+        lemma_sumr_reindex(a, idx);
+        assert(rvs(v2) =~= Seq::new(a.len(), |i: int| a[idx[i]])) by {
+            assert forall|i: int| 0 <= i < n implies rvs(v2)[i] == a[idx[i]] by {
+                assert(0 <= idx[i] < n && rv(v2[i]) == 1real * rv(v[idx[i]]));
+                assert(1real * rv(v[idx[i]]) == rv(v[idx[i]])) by(nonlinear_arith);
+            }
+        }
+        assert(1real * sumf(v) == sumf(v)) by(nonlinear_arith);
+    }
+}
+/// index map of the subdivision of every step in m equal sub-steps
+pub open spec fn idx_subdiv(n: int, m: int) -> Seq<int> { Seq::new((n * m) as nat, |i2: int| i2 / m) }
+pub proof fn lemma_sumf_subdiv(v: Seq<f32>, v2: Seq<f32>, m: int)
+    requires m > 0, v2.len() == v.len() * m,
+             forall|i2: int| 0 <= i2 < v2.len() ==> rv(#[trigger] v2[i2]) == (1real / (m as real)) * rv(v[i2 / m]),
+    ensures sumf(v2) == sumf(v),
+    decreases v.len(),
+{
+    let n = v.len() as int;
+    if n == 0 { assert(v2.len() == 0) by(nonlinear_arith) requires v2.len() == v.len() * m, v.len() == 0; }
+    else {
+        let cs = 1real / (m as real);
+        let k = (n - 1) * m;
+        assert(n * m == k + m) by(nonlinear_arith) requires k == (n - 1) * m;
+        assert(k >= 0) by(nonlinear_arith) requires k == (n - 1) * m, n >= 1, m > 0;
+        let head = v2.take(k); let tail = v2.skip(k);
+        assert(v2 =~= head + tail);
+        assert(head.len() == v.drop_last().len() * m);
+        assert forall|i2: int| 0 <= i2 < head.len() implies rv(#[trigger] head[i2]) == cs * rv(v.drop_last()[i2 / m]) by {
+            assert(head[i2] == v2[i2]);
+            assert(0 <= i2 / m < n - 1) by(nonlinear_arith) requires 0 <= i2 < (n - 1) * m, m > 0;
+            assert(v.drop_last()[i2 / m] == v[i2 / m]);
+        }
+        lemma_sumf_subdiv(v.drop_last(), head, m);
+        // the tail: m values, each cs * v.last()
+        let x = rv(v.last());
+        assert(tail.len() == m);
+        assert forall|j: int| 0 <= j < m implies rv(#[trigger] tail[j]) == cs * x by {
+            assert(tail[j] == v2[k + j]);
+            assert((k + j) / m == n - 1) by(nonlinear_arith) requires k == (n - 1) * m, 0 <= j < m, m > 0;
+        }
+        lemma_sumf_sumr(tail);
+        assert(rvs(tail) =~= Seq::new(m as nat, |i: int| cs * x));
+        lemma_sumr_const(cs * x, m as nat);
+        assert((m as real) * (cs * x) == x) by(nonlinear_arith) requires cs == 1real / (m as real), m > 0;
+        lemma_sumf_concat(head, tail);
+    }
+}
+pub proof fn lemma_sumf_concat(a: Seq<f32>, b: Seq<f32>)
+    ensures sumf(a + b) == sumf(a) + sumf(b),
+    decreases b.len(),
+{
+    if b.len() == 0 { assert(a + b =~= a); }
+    else { assert((a + b).drop_last() =~= a + b.drop_last()); assert((a + b).last() == b.last()); lemma_sumf_concat(a, b.drop_last()); }
+}
+/// (D) every step split in m equal sub-steps carrying 1/m of its energy: annual sums unchanged
+pub proof fn lemma_lay_subdiv(n: int, m: int)
+    requires n >= 0, m > 0,
+    ensures lay_sums(idx_subdiv(n, m), n, 1real / (m as real), 1real),
+{
+    let idx = idx_subdiv(n, m);
+    assert(n * m >= 0) by(nonlinear_arith) requires n >= 0, m > 0;
+    assert forall|v: Seq<f32>, v2: Seq<f32>| v.len() == n && #[trigger] lay_rel(v, v2, idx, 1real / (m as real)) implies sumf(v2) == 1real * sumf(v) by {
+        assert forall|i2: int| 0 <= i2 < v2.len() implies rv(#[trigger] v2[i2]) == (1real / (m as real)) * rv(v[i2 / m]) by { assert(idx[i2] == i2 / m); }
+        lemma_sumf_subdiv(v, v2, m);
+        assert(1real * sumf(v) == sumf(v)) by(nonlinear_arith);
+    }
+}
+
+// ------------------------------------------------------------------------------------------------ annual figures
+pub open spec fn mval2f(m: Map<ProdSource, HashMap<Service, f32>>, s: ProdSource, srv: Service) -> real {
+    if m.contains_key(s) && m[s]@.contains_key(srv) { rv(m[s]@[srv]) } else { 0real }
+}
+pub open spec fn mvalf<K>(m: Map<K, f32>, k: K) -> real { if m.contains_key(k) { rv(m[k]) } else { 0real } }
+/// every annual figure of the second evaluation is ct times that of the first
+pub open spec fn annual_rel(a: Run, b: Run, ct: real) -> bool {
+    &&& rv(b.used.epus_an) == ct * rv(a.used.epus_an) && rv(b.used.nepus_an) == ct * rv(a.used.nepus_an) && rv(b.used.cgnus_an) == ct * rv(a.used.cgnus_an)
+    &&& (forall|s: Service| #[trigger] mvalf(b.used.epus_by_srv_an@, s) == ct * mvalf(a.used.epus_by_srv_an@, s))
+    &&& rv(b.prod.an) == ct * rv(a.prod.an) && rv(b.prod.epus_an) == ct * rv(a.prod.epus_an)
+    &&& (forall|s: ProdSource| #[trigger] mvalf(b.prod.by_src_an@, s) == ct * mvalf(a.prod.by_src_an@, s))
+    &&& (forall|s: ProdSource| #[trigger] mvalf(b.prod.epus_by_src_an@, s) == ct * mvalf(a.prod.epus_by_src_an@, s))
+    &&& (forall|s: ProdSource, srv: Service| #[trigger] mval2f(b.prod.epus_by_srv_by_src_an@, s, srv) == ct * mval2f(a.prod.epus_by_srv_by_src_an@, s, srv))
+    &&& rv(b.exp.an) == ct * rv(a.exp.an) && rv(b.exp.nepus_an) == ct * rv(a.exp.nepus_an) && rv(b.exp.grid_an) == ct * rv(a.exp.grid_an)
+    &&& (forall|s: ProdSource| #[trigger] mvalf(b.exp.by_src_an@, s) == ct * mvalf(a.exp.by_src_an@, s))
+    &&& rv(b.del.an) == ct * rv(a.del.an) && rv(b.del.grid_an) == ct * rv(a.del.grid_an) && rv(b.del.onst_an) == ct * rv(a.del.onst_an) && rv(b.del.cgn_an) == ct * rv(a.del.cgn_an)
+}
+/// every step i2 of the second evaluation is related to step idx[i2] of the first
+pub open spec fn steps_rel(a: Run, b: Run, idx: Seq<int>, cs: real) -> bool {
+    run_n(b) == idx.len() && forall|i2: int| 0 <= i2 < idx.len() ==> 0 <= #[trigger] idx[i2] < run_n(a) && step_rel_r(a, b, idx[i2], i2, cs)
+}
+pub proof fn lemma_annual_vec(v: Seq<f32>, v2: Seq<f32>, idx: Seq<int>, n: int, cs: real, ct: real)
+    requires lay_sums(idx, n, cs, ct), v.len() == n, lay_rel(v, v2, idx, cs),
+    ensures sumf(v2) == ct * sumf(v),
+{}
+
+/// THE ANNUAL THEOREM: under a layout of the time axis that preserves sums up to the factor ct, every annual figure of the
+/// second evaluation is ct times that of the first
+pub proof fn thm_annual(a: Run, b: Run, lm: bool, idx: Seq<int>, cs: real, ct: real)
+    requires run_ok(a, lm), run_ok(b, lm), doms_same_r(a, b), steps_rel(a, b, idx, cs), lay_sums(idx, run_n(a), cs, ct),
+    ensures annual_rel(a, b, ct),
+{
+    let n = run_n(a);
+    lemma_mul0(ct);
+    // scalar-valued vectors
+    assert(lay_rel(a.used.epus_t@, b.used.epus_t@, idx, cs));
+    assert(lay_rel(a.used.nepus_t@, b.used.nepus_t@, idx, cs));
+    assert(lay_rel(a.used.cgnus_t@, b.used.cgnus_t@, idx, cs));
+    assert(lay_rel(a.prod.t@, b.prod.t@, idx, cs));
+    assert(lay_rel(a.prod.epus_t@, b.prod.epus_t@, idx, cs));
+    assert(lay_rel(a.exp.nepus_t@, b.exp.nepus_t@, idx, cs));
+    assert(lay_rel(a.exp.grid_t@, b.exp.grid_t@, idx, cs));
+    assert(lay_rel(a.del.grid_t@, b.del.grid_t@, idx, cs));
+    assert(lay_rel(a.del.onst_t@, b.del.onst_t@, idx, cs));
+    lemma_annual_vec(a.used.epus_t@, b.used.epus_t@, idx, n, cs, ct);
+    lemma_annual_vec(a.used.nepus_t@, b.used.nepus_t@, idx, n, cs, ct);
+    lemma_annual_vec(a.used.cgnus_t@, b.used.cgnus_t@, idx, n, cs, ct);
+    lemma_annual_vec(a.prod.t@, b.prod.t@, idx, n, cs, ct);
+    lemma_annual_vec(a.prod.epus_t@, b.prod.epus_t@, idx, n, cs, ct);
+    lemma_annual_vec(a.exp.nepus_t@, b.exp.nepus_t@, idx, n, cs, ct);
+    lemma_annual_vec(a.exp.grid_t@, b.exp.grid_t@, idx, n, cs, ct);
+    lemma_annual_vec(a.del.grid_t@, b.del.grid_t@, idx, n, cs, ct);
+    lemma_annual_vec(a.del.onst_t@, b.del.onst_t@, idx, n, cs, ct);
+    lemma_dist2(ct, rv(a.exp.nepus_an), rv(a.exp.grid_an));
+    lemma_dist3(ct, rv(a.del.grid_an), rv(a.del.onst_an), rv(a.used.cgnus_an));
+    assert forall|s: Service| #[trigger] mvalf(b.used.epus_by_srv_an@, s) == ct * mvalf(a.used.epus_by_srv_an@, s) by {
+        if a.used.epus_by_srv_t@.contains_key(s) {
+            assert(b.used.epus_by_srv_t@.contains_key(s));
+            let v = a.used.epus_by_srv_t@[s]@; let v2 = b.used.epus_by_srv_t@[s]@;
+            assert(lay_rel(v, v2, idx, cs)) by {
+                assert forall|i2: int| 0 <= i2 < idx.len() implies 0 <= #[trigger] idx[i2] < v.len() && rv(v2[i2]) == cs * rv(v[idx[i2]]) by {
+                    assert(step_rel_r(a, b, idx[i2], i2, cs));
+                    assert(mvs(b.used.epus_by_srv_t@, s, i2) == cs * mvs(a.used.epus_by_srv_t@, s, idx[i2]));
+                }
+            }
+            lemma_annual_vec(v, v2, idx, n, cs, ct);
+        }
+    }
+    assert forall|s: ProdSource| #[trigger] mvalf(b.prod.by_src_an@, s) == ct * mvalf(a.prod.by_src_an@, s) by {
+        if a.prod.by_src_t@.contains_key(s) {
+            assert(b.prod.by_src_t@.contains_key(s));
+            let v = a.prod.by_src_t@[s]@; let v2 = b.prod.by_src_t@[s]@;
+            assert(lay_rel(v, v2, idx, cs)) by {
+                assert forall|i2: int| 0 <= i2 < idx.len() implies 0 <= #[trigger] idx[i2] < v.len() && rv(v2[i2]) == cs * rv(v[idx[i2]]) by {
+                    assert(step_rel_r(a, b, idx[i2], i2, cs));
+                    assert(mv(b.prod.by_src_t@, s, i2) == cs * mv(a.prod.by_src_t@, s, idx[i2]));
+                }
+            }
+            lemma_annual_vec(v, v2, idx, n, cs, ct);
+        }
+    }
+    assert forall|s: ProdSource| #[trigger] mvalf(b.exp.by_src_an@, s) == ct * mvalf(a.exp.by_src_an@, s) by {
+        if a.prod.by_src_t@.contains_key(s) {
+            assert(b.prod.by_src_t@.contains_key(s));
+            let v = a.exp.by_src_t@[s]@; let v2 = b.exp.by_src_t@[s]@;
+            assert(lay_rel(v, v2, idx, cs)) by {
+                assert forall|i2: int| 0 <= i2 < idx.len() implies 0 <= #[trigger] idx[i2] < v.len() && rv(v2[i2]) == cs * rv(v[idx[i2]]) by {
+                    assert(step_rel_r(a, b, idx[i2], i2, cs));
+                    assert(mv(b.exp.by_src_t@, s, i2) == cs * mv(a.exp.by_src_t@, s, idx[i2]));
+                }
+            }
+            lemma_annual_vec(v, v2, idx, n, cs, ct);
+        }
+    }
+    assert forall|s: ProdSource| #[trigger] mvalf(b.prod.epus_by_src_an@, s) == ct * mvalf(a.prod.epus_by_src_an@, s) by {
+        if a.prod.epus_by_src_t@.contains_key(s) {
+            assert(b.prod.epus_by_src_t@.contains_key(s));
+            let v = a.prod.epus_by_src_t@[s]@; let v2 = b.prod.epus_by_src_t@[s]@;
+            assert(lay_rel(v, v2, idx, cs)) by {
+                assert forall|i2: int| 0 <= i2 < idx.len() implies 0 <= #[trigger] idx[i2] < v.len() && rv(v2[i2]) == cs * rv(v[idx[i2]]) by {
+                    assert(step_rel_r(a, b, idx[i2], i2, cs));
+                    assert(mv(b.prod.epus_by_src_t@, s, i2) == cs * mv(a.prod.epus_by_src_t@, s, idx[i2]));
+                }
+            }
+            lemma_annual_vec(v, v2, idx, n, cs, ct);
+        }
+    }
+    assert forall|s: ProdSource, srv: Service| #[trigger] mval2f(b.prod.epus_by_srv_by_src_an@, s, srv) == ct * mval2f(a.prod.epus_by_srv_by_src_an@, s, srv) by {
+        if a.prod.epus_by_src_t@.contains_key(s) && a.used.epus_by_srv_t@.contains_key(srv) {
+            assert(b.prod.epus_by_src_t@.contains_key(s) && b.used.epus_by_srv_t@.contains_key(srv));
+            let v = a.prod.epus_by_srv_by_src_t@[s]@[srv]@; let v2 = b.prod.epus_by_srv_by_src_t@[s]@[srv]@;
+            assert(a.prod.epus_by_srv_by_src_t@[s]@.dom() =~= a.used.epus_by_srv_t@.dom());
+            assert(b.prod.epus_by_srv_by_src_t@[s]@.dom() =~= b.used.epus_by_srv_t@.dom());
+            assert(lay_rel(v, v2, idx, cs)) by {
+                assert forall|i2: int| 0 <= i2 < idx.len() implies 0 <= #[trigger] idx[i2] < v.len() && rv(v2[i2]) == cs * rv(v[idx[i2]]) by {
+                    assert(step_rel_r(a, b, idx[i2], i2, cs));
+                    assert(mv2(b.prod.epus_by_srv_by_src_t@, s, srv, i2) == cs * mv2(a.prod.epus_by_srv_by_src_t@, s, srv, idx[i2]));
+                }
+            }
+            lemma_annual_vec(v, v2, idx, n, cs, ct);
+            assert(a.prod.epus_by_srv_by_src_an@[s]@.dom() =~= a.used.epus_by_srv_t@.dom());
+            assert(b.prod.epus_by_srv_by_src_an@[s]@.dom() =~= b.used.epus_by_srv_t@.dom());
+        } else {
+            if a.prod.epus_by_src_t@.contains_key(s) {
+                assert(a.prod.epus_by_srv_by_src_an@[s]@.dom() =~= a.used.epus_by_srv_t@.dom());
+                assert(b.prod.epus_by_srv_by_src_an@[s]@.dom() =~= b.used.epus_by_srv_t@.dom());
+            }
+        }
+    }
+}
